@@ -83,3 +83,14 @@ class RootNodes:
         for name, goal, _ in RootNodes.ensures(g, res):
             C.assume(goal)
         return res
+
+
+class SDiGraphEx(SGraph):
+    """SGraph + contract stubs of tawazi's own DiGraphEx methods (contract layer, DESIGN 2.3)"""
+
+    @property
+    def root_nodes(self):
+        return RootNodes.stub(self)
+
+    def remove_root_node(self, r):
+        return RemoveRootNode.stub(self, r)
